@@ -271,6 +271,56 @@ def ambient_streams(ctx):
     ctx.count('ambient_stream_runs', 3 * 4 * 2 * len(docs))
 
 
+def after_collection(ctx):
+    """restored means restored for good: when the objects of a finished run (the DocTest, its summary, the exception it raised and the
+    frames that hangs on) are dropped and the garbage collector runs LATER - the host has meanwhile put another stream into
+    sys.stdout - nothing of the old run reaches into sys.stdout any more"""
+    from xdoctest import doctest_example
+    import gc
+    import io
+    docs = [">>> print('x')\nx", ">>> print('x')\ny", ">>> raise ValueError('v')", ">>> def f():\n...     raise KeyError('k')\n>>> f()",
+            ">>> raise ValueError('v')\nTraceback (most recent call last):\nValueError: w", ">>> print('never')  # xdoctest: +SKIP"]
+    n = 0
+    for doc in docs:
+        for oe in ('return', 'raise'):
+            for keep in ('nothing', 'summary-until-switch'):
+                ctx.evaluations += 1
+                n += 1
+                real, real_err = sys.stdout, sys.stderr
+                a, b = io.StringIO(), io.StringIO()
+                problem = None
+                try:
+                    sys.stdout = a
+                    kept = None
+                    ex = doctest_example.DocTest(docsrc=doc, lineno=1)
+                    try:
+                        with warnings.catch_warnings():
+                            warnings.simplefilter('ignore')
+                            kept = ex.run(on_error=oe, verbose=0)
+                    except BaseException as e:      # noqa
+                        kept = e
+                    if sys.stdout is not a:
+                        problem = 'directly after the run sys.stdout is not the stream it found'
+                    if keep == 'nothing':
+                        kept = None
+                    ex = None
+                    sys.stdout = b                      # the host goes on with another stream; the first one stays open
+                    kept = None
+                    e = None
+                    for _ in range(3):
+                        gc.collect()
+                    if problem is None and sys.stdout is not b:
+                        problem = 'after the objects of the finished run were garbage-collected, sys.stdout is %s, not the stream the host installed after the run' % (
+                            'the stream the run had found' if sys.stdout is a else repr(sys.stdout))
+                finally:
+                    sys.stdout, sys.stderr = real, real_err
+                if problem:
+                    ctx.violation('not-restored', {'what': problem + ' (on_error=%r, result kept: %s)' % (oe, keep), 'doctest': doc, 'on_error': oe, 'scenario': 'later-collection',
+                                                   'theorem_or_correspondence': 'C12_stdout_restored on DocTest.run (objects of a finished run collected later)'}, True)
+                    return
+    ctx.count('later_collection_runs', n)
+
+
 def capture_protocol(ctx):
     """utils.CaptureStdout, the object DocTest.run wraps around every part, driven directly: random sequences of parts over ONE
     capture object (as run does), each part a list of actions (write text incl. carriage returns / non-ASCII, swap sys.stdout and maybe
@@ -637,6 +687,7 @@ def run(ctx):
             break
     import_cases(ctx)
     ambient_streams(ctx)
+    after_collection(ctx)
     capture_protocol(ctx)
     ctx.add_rule('PythonPathContext: seeded sys.path lists x index in {-1,0,1,2,-2,len,-(len+1)} x 11 body manipulations vs model; '
                  'DocTest.run: 9 body flavours (prints, replaces sys.stdout with/without restoring, closes the stream found in sys.stdout directly or through `with`, alters warning filters / showwarning, awaits, touches stderr) x '
